@@ -91,6 +91,21 @@ add('C16', 'exploration',
     'than their END_STREAM frame, well-formed ones fully delivered.',
     'Negative / non-numeric / duplicated content-length and content-length on 1xx blocks are undetermined classes (not generated).')
 
+add('C14', 'exploration',
+    'runtime monitoring: independent normal-form + RFC 8.1.2 predicate over blocks decoded by a monitor-owned HPACK decoder',
+    'Every emitted block is decoded independently and compared with the oracle form of the input (normal form or raw, per '
+    'configuration) including never-indexed marks; emitted blocks must satisfy the rules the configuration promises; '
+    'plainly valid inputs must be accepted. Grammar covers case, SP/HTAB, str/bytes, tuple classes, special names, duplicates, order.',
+    'Whitespace limited to SP/HTAB; CONNECT, TE case variants and several different Host fields are undetermined; only '
+    'authorization/proxy-authorization/short cookies are required never-indexed (caller-marked fields are a statistic).')
+
+add('C15', 'exploration',
+    'runtime monitoring: independent RFC 8.1.2 predicate over decoded lists built by a literal-only HPACK encoder',
+    'The peer knows the decoded list exactly; an independent predicate decides deliver/refuse per block position and '
+    'configuration; delivered headers are compared with the decoded block (cookie join, header_encoding), refusals must carry '
+    'PROTOCOL_ERROR. Rule-targeted mutations hit every rule at first/middle/last position plus adversarial byte strings.',
+    'CONNECT, requests with neither :authority nor Host, exotic edge whitespace, TE case variants and undecodable text under header_encoding are undetermined.')
+
 NOT_BUILT_REASON = 'check not built yet in this session (planned in DESIGN.md; no verdict claimed)'
 
 def main():
